@@ -153,6 +153,12 @@ func factsC19() {
 		one(callArgsSrc(back, cc, "utils.LineToSlice"), "LineToSlice in buildBackendCustomConfig"),
 	}, "backend.go buildBackendCustomConfig: argument of d.mapper.Get and of utils.LineToSlice")
 
+	// what buildBackendCustomConfig touches of the updater (the object that lives for one whole sync and is
+	// shared by all the backends): the keyword list and the logger only -> the outcome for one backend is a
+	// function of (keywords, selected value), nothing is carried from one backend to the next
+	addStrList("c19CustomConfigReceiverUses", c19ReceiverUses(back, cc),
+		"backend.go buildBackendCustomConfig: distinct selector chains rooted at the receiver (sorted)")
+
 	ut := "pkg/utils/utils.go"
 	ls := funcDecl(ut, "LineToSlice")
 	addStrList("c19LineToSliceConds", c19Conds(ut, ls), "utils.go LineToSlice: comparisons")
@@ -164,6 +170,48 @@ func factsC19() {
 		return true
 	})
 	addStrList("c19LineToSliceReturns", lsret, "utils.go LineToSlice: returned expressions")
+}
+
+// c19ReceiverUses: the distinct maximal selector chains `recv.a.b...` inside a method, sorted
+func c19ReceiverUses(rel string, fd *ast.FuncDecl) []string {
+	if fd.Recv == nil || len(fd.Recv.List) != 1 || len(fd.Recv.List[0].Names) != 1 {
+		fail("%s: method without a named receiver", fd.Name.Name)
+	}
+	recv := fd.Recv.List[0].Names[0].Name
+	rooted := func(e ast.Expr) bool {
+		for {
+			switch x := e.(type) {
+			case *ast.SelectorExpr:
+				e = x.X
+			case *ast.Ident:
+				return x.Name == recv
+			default:
+				return false
+			}
+		}
+	}
+	seen := map[string]bool{}
+	ast.Inspect(fd.Body, func(n ast.Node) bool {
+		switch x := n.(type) {
+		case *ast.SelectorExpr:
+			if rooted(x) {
+				seen[c19Src(rel, x)] = true
+				return false
+			}
+		case *ast.Ident:
+			if x.Name == recv {
+				// the receiver itself handed over / used without a selector
+				seen[recv] = true
+			}
+		}
+		return true
+	})
+	res := make([]string, 0, len(seen))
+	for k := range seen {
+		res = append(res, k)
+	}
+	sort.Strings(res)
+	return res
 }
 
 // callArgsSrc: source text of all arguments of every call of callee inside fd (joined by ", ")
